@@ -425,6 +425,86 @@ pub fn l32_file_stage(ctx: &Ctx, build_dir: &Path) -> (u64, Option<Value>, Optio
     (0, Some(report), Some(format!("32-bit-limb Miri stage was inconclusive: {last_err}")))
 }
 
+/// C19: deep inputs (hundreds of thousands of leading zeros, exponent zeros, digits ...) in every available
+/// build, each in a child process on a 2 MiB thread: stack use must not grow with the input.  The `dbg0`
+/// build (opt-level 0: no inlining, no tail-call elimination) is what an ordinary `cargo build` user runs.
+pub fn deep_stage(ctx: &Ctx) -> (u64, Option<Value>, Option<String>) {
+    if ctx.id != "C19" && ctx.id != "C04" {
+        return (0, None, None);
+    }
+    let lib = ctx.id == "C04";
+    let names: &[&str] = if lib { &crate::props::c04::DEEP_KINDS } else { &crate::props::c19::DEEP_KINDS };
+    let n: usize = match (ctx.tier.name(), lib) {
+        ("quick", false) => 300_000,
+        ("quick", true) => 200_000,
+        (_, false) => 3_000_000,
+        (_, true) => 1_000_000,
+    };
+    let mut bins: Vec<(&str, PathBuf)> = vec![("release", std::env::current_exe().expect("current_exe"))];
+    if let Ok(p) = std::env::var("MLV_DBGCHK_BIN") {
+        bins.push(("dbgchk", PathBuf::from(p)));
+    }
+    if let Ok(p) = std::env::var("MLV_DBG0_BIN") {
+        if Path::new(&p).exists() {
+            bins.push(("dbg0", PathBuf::from(p)));
+        }
+    }
+    let start = Instant::now();
+    let mut violations = 0u64;
+    let mut runs = 0u64;
+    let mut err: Option<String> = None;
+    let kinds = names.len();
+    let mut children = Vec::new();
+    for (name, bin) in &bins {
+        for k in 0..kinds {
+            let c = Command::new(bin).args(["deep", &k.to_string(), &n.to_string(), if lib { "lib" } else { "front" }]).stdin(Stdio::null()).stdout(Stdio::piped()).stderr(Stdio::piped()).spawn();
+            match c {
+                Ok(c) => children.push((*name, k, c)),
+                Err(e) => {
+                    err.get_or_insert(format!("cannot start the deep-input child ({name}): {e}"));
+                }
+            }
+        }
+    }
+    for (name, k, c) in children {
+        let out = match c.wait_with_output() {
+            Ok(o) => o,
+            Err(e) => {
+                err.get_or_insert(format!("deep-input child: {e}"));
+                continue;
+            }
+        };
+        runs += 1;
+        if out.status.success() {
+            continue;
+        }
+        let stdout = String::from_utf8_lossy(&out.stdout).to_string();
+        let how = abnormal(&out.status);
+        if is_oom_or_external_kill(&out.status) {
+            err.get_or_insert("a deep-input child was killed (SIGKILL)".into());
+            continue;
+        }
+        let message = match (&how, stdout.lines().find(|l| l.starts_with("DEEP-VIOLATION"))) {
+            (_, Some(l)) => l.to_string(),
+            (Some(h), None) => format!("the {name} build died with {h} on a deep input ({}; {} bytes): stack use grows with the input", names[k], n),
+            (None, None) => {
+                err.get_or_insert(format!("deep-input child ({name}, kind {k}) exited with {:?} without a verdict", out.status.code()));
+                continue;
+            }
+        };
+        violations += 1;
+        eprintln!("deep-input stage: {message}");
+        let path = ctx.verif_dir.join("replays").join(format!("{}-deep-{}-{}-{}.json", ctx.id, name, k, n));
+        std::fs::create_dir_all(ctx.verif_dir.join("replays")).ok();
+        let doc = json!({"property": ctx.id, "message": message, "case": {"kind": "deep", "binary": name, "input_kind": k, "len": n, "description": names[k]}});
+        let _ = std::fs::write(&path, serde_json::to_string_pretty(&doc).unwrap());
+        println!("VIOLATION property={} replay={}", ctx.id, path.display());
+    }
+    let report = json!({"inputs": names, "bytes_each": n, "builds": bins.iter().map(|(n, _)| *n).collect::<Vec<_>>(), "child_processes": runs,
+                        "thread_stack_bytes": 2u64 << 20, "wall_s": start.elapsed().as_secs_f64(), "violations": violations});
+    (violations, Some(report), if violations == 0 { err } else { None })
+}
+
 /// For properties that are not process-supervised: run the registered fuzz
 /// campaigns after the in-process check and merge them into the evidence file.
 pub fn fuzz_poststep(ctx: &Ctx, code: i32) -> i32 {
@@ -568,6 +648,11 @@ pub fn run(ctx: &Ctx) -> i32 {
     if let Some(e) = lerr {
         harness_error.get_or_insert(e);
     }
+    let (dv, deep_report, derr) = deep_stage(ctx);
+    violations += dv;
+    if let Some(e) = derr {
+        harness_error.get_or_insert(e);
+    }
     if violations == 0 {
         if let Some(e) = harness_error {
             eprintln!("HARNESS-ERROR property={} {}", ctx.id, e);
@@ -614,6 +699,9 @@ pub fn run(ctx: &Ctx) -> i32 {
     }
     if let Some(m) = l32_report {
         coverage.insert("limb32_stage".into(), m);
+    }
+    if let Some(m) = deep_report {
+        coverage.insert("deep_input_stage".into(), m);
     }
     coverage.insert(
         "note".into(),
